@@ -203,7 +203,7 @@ CASES_PER_FILE = 250
 
 
 def coq_mismatches(imports: list[str], fn: str, in_ty: str, cases: list[tuple[str, str]], label: str,
-                   keep_dir: Path | None = None) -> dict:
+                   keep_dir: Path | None = None, per_file: int | None = None) -> dict:
     """cases: [(coq_input_term, expected_python_string)].  The model function `fn : in_ty -> list N`
     is evaluated on every input with vm_compute and compared in Coq with the expected string.
     Returns {'mismatch': [indices], 'errors': [...], 'n': len(cases)}."""
@@ -212,6 +212,7 @@ def coq_mismatches(imports: list[str], fn: str, in_ty: str, cases: list[tuple[st
     result = {"mismatch": [], "errors": [], "n": len(cases), "model_out": {}}
     if not cases:
         return result
+    CASES_PER_FILE = per_file or globals()["CASES_PER_FILE"]        # large inputs (whole documents) use smaller files
     shards = [cases[i:i + CASES_PER_FILE] for i in range(0, len(cases), CASES_PER_FILE)]
     with scratch_dir() as d:
         names = []
